@@ -3,9 +3,9 @@ package main
 import (
 	"context"
 	"fmt"
-	"strings"
 	"math/rand"
 	"sort"
+	"strings"
 	"time"
 
 	"verif/internal/dbh"
@@ -183,7 +183,7 @@ type dsOpts struct {
 	opts                 dbh.Opts
 	fixedRes             time.Duration
 	fields               []ref.FieldDef
-	ascending            bool                                                          // points arrive in timestamp order (nothing is rejected as too old)
+	ascending            bool                                                      // points arrive in timestamp order (nothing is rejected as too old)
 	retentionFn          func(r *rand.Rand, res, span time.Duration) time.Duration // overrides span+slack
 }
 
